@@ -456,7 +456,12 @@ CLAIMS['C01']['text'] += (' SELECTION HYPOTHESIS DERIVED (Props/C01sel.lean, Pro
     'fragment has 1..maxPayloadSize bytes, so the no-user-data branch of popPendingDataChunksToSend is never taken); C01_selfifo_selcontig: SelFifo and Reliable imply SelContig (write fills the queue '
     'message by message, fragments adjacent and in order); C01_netsys_prefix_fifo: the statement of C01_netsys_prefix with SelFifo in the place of SelContig. What remains a hypothesis about the real '
     'code is SelFifo itself, i.e. that the Sender model\'s oracle IS the real queue\'s answer: tied by the direct-drive sender harness, which logs the push-order index of every chunk the real '
-    'pendingQueue hands out (as ora sel=), replays it through Sender.gather (DIFF) and now checks with predicate [C01,C17] that in non-interleaved sequences whose streams are all ordered every logged index is 0.')
+    'pendingQueue hands out (as ora sel=), replays it through Sender.gather (DIFF) and now checks with predicate [C01,C17] that in non-interleaved sequences whose streams are all ordered every logged index is 0. '
+    'COMPOSED MODEL (Model/NetSysQ.lean, Proofs/NetSys/SelQ.lean): NetSys with the oracle replaced by the message policy of the PendQ model - the queue is pushed every chunk a write appends to the pending list, '
+    'a gather\'s selection list is what draining the queue hands out, each chunk looked up by identity in the pending list (the very computation by which the harness derives sel= from the real queue); '
+    'C01_netsysq_selfifo: over reliable ordered streams every selection list it computes is all zeros; C01_netsysq_prefix: the prefix theorem for EVERY run of NetSysQ with no hypothesis on the selection at all '
+    '(C01_netsysq_run: a NetSysQ run is the NetSys run on the resolved operation list); C01_netsysq_no_queue_error: in such runs no pendingQueue.pop fails (the flag after which the composed model hands out '
+    'nothing is never raised: writes queue whole messages B first / E last, the queue runs parallel to the pending list).')
 CLAIMS['C17']['text'] += (' Props/C17fifo.lean: C17_ordered_only_fifo - under the message policy with ordered pushes only the queue is globally first-in-first-out (pushes = pops ++ contents; every '
     'peek / pop returns the oldest queued chunk); it is what justifies the FIFO selection hypothesis SelFifo of C01_netsys_prefix_fifo.')
 if 'C03' in CLAIMS:
